@@ -216,12 +216,22 @@ def do_op(w, action, a, rng):
         else:
             fn = lambda: w.slots[me].extend_sequences(w.slots[others[0]], is_add_new_sequences=a["flag"])
     elif action in ("RemoveSequences", "DiscardSequences", "KeepSequences"):
-        ids = list(a["taxa"])
+        ids = list(a["taxa"])            # a sequence: order and repeats are part of the call
+        # the docstrings accept any iterable of Taxon objects; forms that cannot carry repeats
+        # (set, TaxonNamespace) are logged with what they actually pass
+        forms = ["list", "tuple", "iter", "gen"]
         if action != "RemoveSequences":
-            rng.shuffle(ids)
+            forms += ["set", "namespace"]
+        form = rng.choice(forms)
+        if form in ("set", "namespace"):
+            ids = [t for k, t in enumerate(ids) if t not in ids[:k]]
         taxa = [w.taxon[t] for t in ids]
-        form = rng.choice(("list", "tuple", "iter")) if action != "KeepSequences" else rng.choice(("list", "set", "iter"))
-        arg = {"list": taxa, "tuple": tuple(taxa), "iter": iter(taxa), "set": set(taxa)}[form]
+        if form == "namespace":
+            arg = w.d.TaxonNamespace()
+            for t in taxa:
+                arg.add_taxon(t)
+        else:
+            arg = {"list": taxa, "tuple": tuple(taxa), "iter": iter(taxa), "gen": (t for t in taxa), "set": set(taxa)}[form]
         args = {"taxa": ids, "form": form}
         meth = {"RemoveSequences": "remove_sequences", "DiscardSequences": "discard_sequences",
                 "KeepSequences": "keep_sequences"}[action]
@@ -313,7 +323,7 @@ def model_args(name, args):
     if name == "ExtendSequences":
         return {"i": args[0], "j": args[1], "flag": args[2]}
     if name in ("RemoveSequences", "DiscardSequences", "KeepSequences"):
-        return {"i": args[0], "taxa": sorted(args[1])}
+        return {"i": args[0], "taxa": list(args[1])}
     if name in ("NewSequence", "SetItem"):
         return {"i": args[0], "t": args[1], "vals": [dense(c) for c in args[2]]}
     if name == "DelItem":
@@ -437,7 +447,10 @@ def random_history(w, rng, case):
                 T = [t for t in have if rng.random() < 0.4]
             else:
                 T = [t for t in taxa if rng.random() < 0.4]
-            evs.append(do_op(w, act, {"i": i, "taxa": sorted(T)}, rng))
+            if T and rng.random() < 0.35:          # name some taxa more than once
+                T = T + [rng.choice(T) for _ in range(rng.randint(1, 2))]
+            rng.shuffle(T)
+            evs.append(do_op(w, act, {"i": i, "taxa": T}, rng))
         elif r < 0.97:
             t = rng.choice(taxa)
             vals = fresh(rng.randint(0, 4))
@@ -595,7 +608,8 @@ def run(ctx):
     ctx.assumptions.append("cells of 2-symbol data types (RestrictionSites, InfiniteSites) and of the 17-symbol nucleotide "
                            "types cannot all be distinct; Generic, Continuous and StandardBig matrices have pairwise distinct cells")
     ctx.assumptions.append("calls stay inside the documented preconditions: concatenate on full rectangular matrices (or with a "
-                           "foreign-namespace matrix), taxa lists have no duplicates; the receiver passed as its own other_matrix occurs only in "
+                           "foreign-namespace matrix); taxa arguments are sequences that may name a taxon repeatedly (for remove_sequences the "
+                           "documented KeyError is then the expected outcome); the receiver passed as its own other_matrix occurs only in "
                            "the random histories and is judged for termination only")
     for smp in stats["samples"]:
         ctx.add_sample(smp)
